@@ -42,6 +42,9 @@ type Prop struct {
 	Run    func(c Case) (Result, error)
 	Rule   string
 	Shard  int // cases per Coq file
+	// RaceKinds: when the harness runs under the race detector (VH_RACE=1) only cases whose Kind has one
+	// of these prefixes are executed (nil = all): the sequential families have nothing to race with
+	RaceKinds []string
 }
 
 var props = map[string]*Prop{}
@@ -128,6 +131,18 @@ func main() {
 		}
 		r := rand.New(rand.NewPCG(*seed, 0x9e3779b97f4a7c15))
 		cases = append(cases, p.Gen(*tier, r)...)
+		if os.Getenv("VH_RACE") == "1" && p.RaceKinds != nil {
+			var keep []Case
+			for _, c := range cases {
+				for _, pre := range p.RaceKinds {
+					if strings.HasPrefix(c.Kind, pre) {
+						keep = append(keep, c)
+						break
+					}
+				}
+			}
+			cases = keep
+		}
 	}
 	meta := Meta{Property: id, Tier: *tier, Seed: *seed, Rule: p.Rule, Kinds: map[string]int{}}
 	seen := map[string]bool{}
